@@ -45,7 +45,7 @@ def worker(wseed, prop, genname, budget_s, hist_len, binary, check_every=0, max_
 
 
 def run(prop, tier, genname, rule, budget_quick=20, budget_thorough=240, hist_len=(20, 200), check_every=0,
-        assumptions=None):
+        assumptions=None, extra_fn=None):
     t0 = time.time()
     seed = util.seed_from_env()
     binary, bt = server.build("dev")
@@ -55,6 +55,8 @@ def run(prop, tier, genname, rule, budget_quick=20, budget_thorough=240, hist_le
     res = util.run_workers(worker, seeds, dict(prop=prop, genname=genname, budget_s=budget, hist_len=hist_len,
                                                binary=binary, check_every=check_every))
     res.extra["build_s"] = round(bt, 1)
+    if extra_fn is not None:
+        res.merge(extra_fn(tier, seed))
     return util.finish(prop, tier, seed, "exploration", res, rule, t0, assumptions=assumptions or [
         "reference model fv/model.py encodes Redis semantics (hand-checked against the command reference; no Redis binary offline)",
         "error replies compare as 'is an error' only; unordered replies as multisets; scores as floats",
